@@ -44,6 +44,7 @@ class Tap:
         self.prev = {}                 # id(branch) -> list of node ids at last check
         self.prev_closed = {}          # id(branch) -> bool
         self.prev_closed_checked = {}
+        self.new_ticks = []
         self.born = {}                 # id(branch) -> (parent-id or None, nodes inherited, ticks inherited)
         self.order = []                # branch ids in AFTER_BRANCH_ADD order
         self.rule_applies = 0
@@ -84,6 +85,7 @@ class Tap:
 
     def _node_tick(self, node, branch):
         self._ev('AFTER_NODE_TICK', branch=id(branch), node=id(node), step=self.tab.current_step)
+        self.new_ticks.append((node, branch))
 
     def _trunk(self, tab):
         self.trunk_built = True
@@ -160,6 +162,24 @@ class Tap:
             if old is None and b.parent is not None:
                 first_new = len(before.get(id(b.parent), ()))
             self._check_steps(b, bi, nodes, first_new, cur)
+        # ticks that happened since the last check
+        for node, branch in self.new_ticks:
+            try:
+                st = tab.stat(branch, node, 'STEP_TICKED')
+                sa, _ = _node_steps(tab, branch, node)
+            except Exception as e:
+                P('stat-lookup-raises', error=type(e).__name__, what='tick')
+                continue
+            if st is None:
+                P('tick-event-without-recorded-tick-step')
+            else:
+                if st > cur:
+                    P('step-ticked-in-the-future', step=st, current=cur)
+                if sa is not None and st < sa:
+                    P('step-ticked-before-added', ticked=st, added=sa)
+            if not branch.is_ticked(node):
+                P('tick-event-for-unticked-node')
+        self.new_ticks = []
         # the open view
         want_open = [b for b in tab if not b.closed]
         got_open = list(tab.open)
